@@ -61,6 +61,8 @@ class LazyContourList(object):
                 except BaseException as e:
                     e.args = (f"Event {idx}, {e.args[0]}",)
                     raise
+                # The contour is cached and handed out as is.
+                cont.setflags(write=False)
             else:
                 # Get the contour from deque
                 cont = self.contours[idx_q]
